@@ -25,6 +25,31 @@ CLAIMED = {
     ),
 }
 
+CLAIMED["C01"] = dict(
+    category="proof",
+    text=("The real _per_group_step_impl (with its six helpers, the real default update_params and the real Adagrad/SGD grafting lists), the real "
+          "step() and the real Shampoo preconditioner-list class are executed on symbolic tensors/scalars; on every feasible flag path the post-heap "
+          "(parameters, filtered gradient, momentum, grafting accumulator, factor matrices, inverse roots, bias corrections, step counter) is proved equal "
+          "to the documented recurrence for all real values, all step numbers, orders 0..4 and every ignored-dims subset; schedule flags and argument wiring "
+          "of step() are proved for all integers. Counter-models replay on the real code natively."),
+    design_ref="DESIGN.md §4/C01",
+    note=("real arithmetic instead of IEEE; assumed pointwise/norm contracts of torch _foreach ops; tensordot/permute uninterpreted per structural signature "
+          "(their mathematical meaning validated natively against einsum definitions, bounded); matrix_inverse_root by contract [M]; two generic blocks "
+          "(block-count parametricity is a stated meta-assumption); filtered/momentum buffers exist iff beta1/momentum non-zero at construction"),
+    technique=E2 + "; real-arithmetic + array theory, uninterpreted matrix functions; numeric refutation + native replay for counter-models",
+)
+CLAIMED["C02"] = dict(
+    category="proof",
+    text=("Under the hyperparameter correspondence of each of the five grafting targets, one real warm-up group step is proved (all values, all flag paths) to "
+          "produce the parameter and carried state of the documented torch.optim update; after warm-up the applied direction is proved to be the Shampoo "
+          "direction times ||graft||/(||shampoo||+1e-16); _instantiate_grafting's config->(beta2, epsilon, bias-correction) wiring is proved on the real code. "
+          "The torch.optim side is the documented algorithm (assumed contract), validated natively against the real torch.optim classes every run (bounded)."),
+    design_ref="DESIGN.md §4/C02",
+    note=("torch.optim update rules are an assumed contract (validated natively, bounded); side conditions SGD dampening=0, Adagrad lr_decay=0, RMSprop "
+          "centered=False/momentum=0, per-parameter step == group step; axiom instances for integer powers, sqrt and Frobenius-norm homogeneity; real arithmetic"),
+    technique=E2 + "; NRA with sqrt/pow axiom instances and separately discharged lemmas",
+)
+
 NOT_YET = "no check committed yet for this property (work in progress; see DESIGN.md for the planned contract)"
 
 
